@@ -306,7 +306,11 @@ def process_fn(repo, annot_rel, opts, mode, canary, base_variants):
         # vacuity canary: a renamed copy with `ensures false`, next to the unmodified function (callers keep
         # seeing the real contract)
         sp, marks = annot.splice(ctoks)
-        clow, _ = lower.lower(sp, marks, lopts)
+        clow, clog = lower.lower(sp, marks, lopts)
+        for _l in clog:     # rule D19: the fn-local items hoisted in front of the function exist already (original copy)
+            _m = re.match(r'D19 hoisted_tokens=(\d+)', _l)
+            if _m:
+                clow = clow[int(_m.group(1)):]
         for i, (k, t) in enumerate(clow):
             if k == 'id' and t == 'fn':
                 clow[i + 1] = ('id', clow[i + 1][1] + '__canary')
